@@ -29,9 +29,7 @@ import (
 func main() { mon.Main("C11", run) }
 
 var (
-	encodeRefused    int64
-	untypedSkipped   int64
-	nanCrossWidth    int64
+	untypedSkipped   int64 // types whose documented preferred representation has no Go type (unhashable map key)
 	preferredChecked int64
 )
 
@@ -73,8 +71,9 @@ func probe(cs cqlgen.Case) *cqlgen.Failure {
 
 	// untyped destination
 	if cqlgen.PreferredKeyUnhashable(t) {
-		// Go has no type for the documented preferred representation (map with slice/map keys).
-		// The library must at least not panic; what it returns instead is not judged.
+		// Go has no type for the documented preferred representation (map with slice/map keys:
+		// blob, custom, inet, list, set, map, tuple, udt). The library must at least not panic
+		// (it did until /repo commit 2daf369); what it returns instead is not judged.
 		const key = "map/untyped/unhashable-preferred-key/interface{}"
 		if _, _, pan := cqlgen.SafePreferredGoType(dt); pan != "" {
 			return &cqlgen.Failure{Stage: "untyped", Key: key, Msg: "PreferredGoType panics: " + pan, LibHex: lib}
@@ -228,6 +227,4 @@ func run(c *mon.Ctx) {
 	c.Count("untyped_check_skipped_no_go_type_for_preferred", atomic.LoadInt64(&untypedSkipped))
 	c.Count("preferred_type_compared_with_doc", atomic.LoadInt64(&preferredChecked))
 	c.Count("empty_value_decoded_as_nil_slice_or_map_tolerated", atomic.LoadInt64(&cqlgen.NilForEmpty))
-	_ = encodeRefused
-	_ = nanCrossWidth
 }
